@@ -54,7 +54,7 @@ private:
     bool _is_prime(uint32_t n) const noexcept {
         for (auto d : _primes) {
             DSPLIB_VERIF_STEP();
-            if (d * d > n) {
+            if (uint64_t(d) * d > n) {
                 break;
             }
             if (n % d == 0) {
@@ -110,7 +110,7 @@ bool isprime(uint32_t n) noexcept {
 
     PrimesGenerator gen;
     auto d = gen.current();
-    while (d * d <= n) {
+    while (uint64_t(d) * d <= n) {
         DSPLIB_VERIF_STEP();
         if (n % d == 0) {
             return false;
@@ -129,7 +129,7 @@ arr_int factor(uint32_t n) {
     std::vector<int> res;
     PrimesGenerator gen;
     uint32_t d = gen.current();
-    while (d * d <= n) {
+    while (uint64_t(d) * d <= n) {
         DSPLIB_VERIF_STEP();
         while (n % d == 0) {
             DSPLIB_VERIF_STEP();
